@@ -41,6 +41,8 @@ def configs(tier):
     # concrete tables (no symbolic index here: the tables are far too large to load into the solver)
     for shape in ([[182, 181]] if tier == "quick" else [[182, 181], [260, 250], [32, 33, 32], [40000]]):
         out.append(dict(kind="large", shape=shape))
+    # image-derived grids for concrete extents in doubles (a shape recomputed from extent / voxel size can lose a cell)
+    out.append(dict(kind="image_doubles", shape=[2]))
     return out
 
 
@@ -71,6 +73,16 @@ def body(cfg):
         return body_image(cfg, darsia, shape, dim)
     if cfg["kind"] == "large":
         return body_large(cfg, darsia, shape, dim)
+    if cfg["kind"] == "image_doubles":
+        bad = []
+        for D in (0.9, 1.0, 0.7, 1.1, 2.3, 0.35):
+            for n in range(1, 101):
+                img = darsia.Image(np.zeros((n, 2)), dimensions=[D, 1.0], scalar=True)
+                g = darsia.generate_grid(img)
+                if tuple(int(x) for x in g.shape) != (n, 2) or int(g.num_cells) != 2 * n:
+                    bad.append((D, n))
+        S.claim("image_grid_shape_is_the_voxel_shape_for_concrete_extents", not bad)
+        return
     grid = darsia.Grid(shape, [0.5, 0.25, 2.0][:dim])
     nc = int(np.prod(shape))
     nfa = [O.num_faces_axis(d, shape) for d in range(dim)]
